@@ -60,14 +60,38 @@ func minimiseMode(t *testing.T, engine, prop string, fn PropFn) {
 			lo = mid + 1
 		}
 	}
-	// 2. ddmin: delete chunks
+	better := func(c []int) bool { return len(c) < len(cur) || (len(c) == len(cur) && sum(c) < sum(cur)) }
 	changed := true
 	for changed && !timeUp() {
 		changed = false
+		// 2. zero chunks (keeps alignment of the remaining choices)
+		for size := len(cur) / 2; size >= 1 && !timeUp(); size /= 2 {
+			for i := 0; i+size <= len(cur) && !timeUp(); i += size {
+				nz := false
+				for _, v := range cur[i : i+size] {
+					if v != 0 {
+						nz = true
+						break
+					}
+				}
+				if !nz {
+					continue
+				}
+				cand := append([]int{}, cur...)
+				for k := i; k < i+size; k++ {
+					cand[k] = 0
+				}
+				if c, ok := test(cand); ok && better(c) {
+					cur = c
+					changed = true
+				}
+			}
+		}
+		// 3. ddmin: delete chunks
 		for size := len(cur) / 2; size >= 1 && !timeUp(); size /= 2 {
 			for i := 0; i+size <= len(cur) && !timeUp(); {
 				cand := append(append([]int{}, cur[:i]...), cur[i+size:]...)
-				if c, ok := test(cand); ok && len(c) < len(cur) {
+				if c, ok := test(cand); ok && better(c) {
 					cur = c
 					changed = true
 				} else {
@@ -75,22 +99,12 @@ func minimiseMode(t *testing.T, engine, prop string, fn PropFn) {
 				}
 			}
 		}
-		// 3. zero / decrement values
+		// 4. halve single values
 		for i := 0; i < len(cur) && !timeUp(); i++ {
-			if cur[i] == 0 {
-				continue
-			}
-			cand := append([]int{}, cur...)
-			cand[i] = 0
-			if c, ok := test(cand); ok && (len(c) < len(cur) || sum(c) < sum(cur)) {
-				cur = c
-				changed = true
-				continue
-			}
 			if cur[i] > 1 {
-				cand = append([]int{}, cur...)
+				cand := append([]int{}, cur...)
 				cand[i] = cur[i] / 2
-				if c, ok := test(cand); ok && (len(c) < len(cur) || sum(c) < sum(cur)) {
+				if c, ok := test(cand); ok && better(c) {
 					cur = c
 					changed = true
 				}
